@@ -285,6 +285,23 @@ func gen(r *hx.Rand, tier string) []json.RawMessage {
 		in.Ops = g.ops
 		out = append(out, hx.J(in))
 	}
+	// directed: Pause acknowledged while traffic is still in flight at a slow lower module, then
+	// Drain while paused (its acknowledgement must wait for that traffic), then Enable
+	for _, a := range Agents {
+		in := input{Agent: a, Buf: 4, Delays: []int{30, 70}, Cfg: map[string]int{}}
+		g := &scriptGen{r: r.Fork(), agent: a}
+		g.data(4)
+		g.ctl(0, true)
+		g.ctl(1, true)
+		g.data(2)
+		g.ctl(2, true)
+		g.data(3)
+		g.at += 30
+		g.ops = append(g.ops, opIn{At: g.at, Ctl: true, Cmd: 2, Wait: true})
+		g.data(2)
+		in.Ops = g.ops
+		out = append(out, hx.J(in))
+	}
 	out = append(out, sweeps(r.Fork(), tier)...)
 	for _, a := range Agents {
 		out = append(out, backPressure(r.Fork(), a, true))
